@@ -153,6 +153,16 @@ Theorem C11_mask_iff : forall v6 m, m < 2 ^ ip_width v6 ->
 Proof. exact mask_iff. Qed.
 Print Assumptions C11_mask_iff.
 
+(* the integer value of an IPv6 text (used for IPv6 netmasks / hostmasks): model function <-> the
+   declarative reading (groups as hexadecimal 16-bit units, dotted quad as two units, "::" as zeros) *)
+Theorem C11_ipv6_value_iff : forall s m, pton6_value s = Some m <-> exists us, ipv6_units s us /\ m = units_to_N us.
+Proof. exact pton6_value_iff. Qed.
+Print Assumptions C11_ipv6_value_iff.
+
+Theorem C11_ipv4_value_iff : forall s m, pton4_value s = Some m <-> quad_value s m.
+Proof. exact pton4_value_iff. Qed.
+Print Assumptions C11_ipv4_value_iff.
+
 (* netaddr.IPNetwork(text): an address of one family, optionally '/' and a prefix text *)
 Theorem C11_ipnetwork_iff : forall s, ipnetwork s = AOk true <-> network_text false s \/ network_text true s.
 Proof. exact ipnetwork_iff. Qed.
